@@ -25,6 +25,7 @@ func init() {
 			"D5 a sort.Slice comparator that indexes a slice with its parameters indexes the slice being sorted. " +
 			"D1 (round 8) also: storing the accumulated slice into a field of the receiver makes every return a use (sort first); a returned freshly allocated value counts as loop-variant when a field of it was stored with a loop-variant value; LazyArgumentMap.ValidateInputs/ValidateOutputs are entry points. " +
 			"D1 (round 9): the triage of walkExp's map loop is re-validated - every visitor passed to WalkExp returns nil or SkipExp only. " +
+			"D1b (round 10): no goroutine in cmd/mro/check, format, graph. " +
 			"NOT decided: order dependence through pointer identity, whether a comparator is a total order on the values it meets (only the sibling contradiction is), stability of topoSort.",
 		Assumptions: commonAssumptions,
 	}
@@ -586,6 +587,7 @@ func runC10(c *an.Ctx) {
 		})
 	}
 	c.Pass("D1b", "no-goroutine-clock-random-in-syntax", 0, "scanned every in-scope function of package syntax")
+	ruleD1c(c)
 	ruleD3(c, fns, cfg)
 	ruleD5(c)
 	c10PositiveExamples(c, cfg)
